@@ -47,6 +47,18 @@ def c18_extra(tier, seed, cov, notes, ctx):
     if rc != 0 or n == 0:
         path = ctx.write_replay('C18', 'unproved', {'property': 'C18', 'kind': 'no-failing-input-found', 'broken': ['harness kbiso'], 'output': {'kbiso': out[-1500:]}})
         return [(path, ' no-failing-input-found')]
+    # generated operation sequences: the generated Keyboard model against the real Keyboard
+    import seqdiff
+    mism, err = seqdiff.run(tier, seed, cov, notes, ctx)
+    if err:
+        notes.append("sequence correspondence not established: " + err)
+        cov['sequence_correspondence'] = 'unavailable: ' + err[:200]
+    else:
+        cov['sequence_correspondence'] = 'agree' if not mism else 'DISAGREE'
+        for mm in mism[:3]:
+            rep = {'property': 'C18', 'kind': 'seq', 'input_text': mm['ops_prefix'], 'detail': mm,
+                   'note': 'generated Keyboard model and the real crate disagree on this operation sequence'}
+            viol.append((ctx.write_replay('C18', 'cex', rep), ''))
     lines = out.split('\n')
     for i, l in enumerate(lines):
         if l.startswith('M '):
@@ -126,14 +138,14 @@ PROPS = {
         'trusted_base': ['rustc const checker and trait solver (the deciding judge for this property)'],
     },
     'C08': {
-        'lib': LIB + ['Check/Scan', 'Check/Ps2M', 'Check/Lay', 'Check/Ev', 'Check/C06', 'Check/C07', 'Check/C08'],
+        'lib': LIB + ['Check/Scan', 'Check/Ps2M', 'Check/Lay', 'Check/Ev', 'Check/C07', 'Check/C08'],
         'syn': ['Props/C08'], 'needs_syn': ['Syn/Lay', 'Syn/Ps2', 'Syn/Set1', 'Syn/Set2', 'Syn/Ev', 'Check/C08'],
         'ext': ['Props/C08_ext'], 'needs_ext': ['ExtI/Lay', 'ExtI/Ps2', 'ExtI/Scan', 'ExtI/Ev', 'Check/C08'],
         'corr': ['Corr/Lay', 'Corr/Ps2Words', 'Corr/Ps2Bits', 'Corr/Set1', 'Corr/Set2', 'Corr/Ev'], 'needs_corr': [],
         'cex_ext': [('Cex/C08_ext', 'layout'), ('Cex/C08w_ext', 'word'), ('Cex/C07_set1_ext', 'bytesN'), ('Cex/C07_set2_ext', 'bytesN'),
-                    ('Cex/C06_ext', 'bits'), ('Cex/C14_ext', 'evstep')],
+                    ('Cex/C08b_ext', 'bits'), ('Cex/C14_ext', 'evstep')],
         'cex_syn': [('Cex/C08_syn', 'layout'), ('Cex/C08w_syn', 'word'), ('Cex/C07_set1_syn', 'bytesN'), ('Cex/C07_set2_syn', 'bytesN'),
-                    ('Cex/C06_syn', 'bits'), ('Cex/C14_syn', 'evstep')],
+                    ('Cex/C08b_syn', 'bits'), ('Cex/C14_syn', 'evstep')],
         'replay_kind': 'layout',
         'cex_filter': 'panic',
         'assumptions': ['stack use and code generation are outside any source-level model'],
